@@ -1,27 +1,31 @@
 (* C08: filtering keeps exactly the selected IDs, intact and in order.
    Statements only; proofs are in Proofs/FilterProofs.v. *)
 From Coq Require Import List Arith ZArith Bool Lia.
-From BiomV Require Import Base.Tree Base.ListUtil Base.Matrix Model.Table Model.Filter Proofs.FilterProofs.
+From BiomV Require Import Base.Tree Base.ListUtil Base.Matrix Model.Table Model.Orient Model.Filter Proofs.FilterProofs.
 From BiomV Require Import Proofs.FilterKernelProofs.
 Import ListNotations.
 
 (* Filtering by an ID collection: exactly the selected ids (the others with invert), in their
-   original order; every kept id pair keeps its value, every kept id its metadata; the other
-   axis, its metadata and the type are untouched; the result is coherent. *)
+   original order; every kept id pair keeps its value, every kept id its metadata (as a reader
+   sees it: filter ends with the metadata normalisation of _cast_metadata, which turns metadata
+   whose entries are all empty into None - md_view identifies None with the empty mapping);
+   the other axis keeps its ids, its metadata (normalised) and the type; the result is coherent. *)
 Theorem filter_keeps_selected : forall keep invert a t t',
   wf t -> filter_ids keep invert a t = ROk t' ->
   ids a t' = filter (fun i => xorb (zmem i keep) invert) (ids a t) /\
-  ids (other a) t' = ids (other a) t /\ mds (other a) t' = mds (other a) t /\ ttype t' = ttype t /\
+  ids (other a) t' = ids (other a) t /\ mds (other a) t' = ctor_md (mds (other a) t) /\ ttype t' = ttype t /\
   (forall o s, In o (oids t') -> In s (sids t') -> cell t' o s = cell t o s) /\
-  (forall x, In x (ids a t') -> md_of a t' x = md_of a t x) /\ wf t'.
+  (forall b x, In x (ids b t') -> md_view b t' x = md_view b t x) /\ wf t'.
 Proof.
   intros keep invert a t t' W H. pose proof (filter_ids_kept keep invert a t t' H) as [K _].
-  unfold filter_ids in H. destruct (forallb _ keep); [|discriminate]. inversion H; subst; clear H.
-  destruct (filter_mask_other (map (fun i => xorb (zmem i keep) invert) (ids a t)) a t) as (A & B & C).
+  unfold filter_ids in H. destruct (forallb _ keep); [|discriminate].
+  assert (E : t' = filter_table (map (fun i => xorb (zmem i keep) invert) (ids a t)) a t) by congruence.
+  clear H. subst t'.
+  destruct (filter_table_other (map (fun i => xorb (zmem i keep) invert) (ids a t)) a t) as (A & B & C).
   split; [exact K|]. split; [exact A|]. split; [exact B|]. split; [exact C|].
-  split; [intros o s Ho Hs; apply filter_mask_cell; assumption|].
-  split; [intros x Hx; apply filter_mask_md; assumption|].
-  apply wf_filter_mask. exact W.
+  split; [intros o s Ho Hs; apply filter_table_cell; assumption|].
+  split; [intros b x Hx; apply filter_table_md_any; assumption|].
+  apply wf_filter_table. exact W.
 Qed.
 Print Assumptions filter_keeps_selected.
 
@@ -78,14 +82,14 @@ Theorem remove_empty_exact : forall a t x,
 Proof. exact remove_empty_ids. Qed.
 Print Assumptions remove_empty_exact.
 
-(* head(n, m) returns exactly the leading n x m block (ids, values, metadata). *)
+(* head(n, m) returns exactly the leading n x m block (ids, values, metadata of every kept id). *)
 Theorem head_block : forall n m t t',
   wf t -> head n m t = ROk t' ->
   (0 < n)%Z /\ (0 < m)%Z /\
   oids t' = firstn (Z.to_nat n) (oids t) /\ sids t' = firstn (Z.to_nat m) (sids t) /\
   mat t' = map (firstn (Z.to_nat m)) (firstn (Z.to_nat n) (mat t)) /\
-  omd t' = option_map (firstn (Z.to_nat n)) (omd t) /\ smd t' = option_map (firstn (Z.to_nat m)) (smd t) /\
-  ttype t' = ttype t.
+  (forall a x, In x (ids a t') -> md_view a t' x = md_view a t x) /\
+  ttype t' = ttype t /\ wf t'.
 Proof. exact head_spec. Qed.
 Print Assumptions head_block.
 
